@@ -62,7 +62,9 @@ type C14Case struct {
 	// Crowd > 0: besides the probed peers the application talks to this many further peer hosts
 	// (one IP each) once, early on; from then on a sample of them is probed in every segment from a
 	// port the client never wrote to - "any number of peers" of C14's quantifier
-	Crowd    int    `json:"crowd,omitempty"`
+	Crowd int `json:"crowd,omitempty"`
+	// MixForms: the application names an IPv4 peer now in the 16-byte, now in the 4-byte form
+	MixForms bool   `json:"mix_forms,omitempty"`
 	Cred     string `json:"cred,omitempty"` // "" static | ltc | rest (time-windowed credentials, C17 end-to-end)
 	CredDurS int    `json:"cred_duration_s,omitempty"`
 }
@@ -420,6 +422,11 @@ func runC14Inner(c *C14Case) (res c14Result) { //nolint:cyclop,gocyclo,maintidx
 				}
 				seq++
 				pa := &net.UDPAddr{IP: p.Local().IP, Port: p.Local().Port}
+				if c.MixForms && seq%2 == 1 {
+					// the application alternates between the address it was configured with (16-byte
+					// form) and the one ReadFrom reports for that peer (4-byte form)
+					pa.IP = pa.IP.To4()
+				}
 				c2p := func() *c14Result {
 					out := []byte(fmt.Sprintf("c2p seg=%d burst=%d peer=%d seq=%d", si, b, pi, seq))
 					if _, err := relay.WriteTo(out, pa); err != nil {
@@ -631,6 +638,7 @@ func genC14(rt *rapid.T, maxHours int) *C14Case {
 		}
 	}
 	c.Sibling = rapid.IntRange(0, 2).Draw(rt, "sibling") > 0
+	c.MixForms = rapid.Bool().Draw(rt, "mixForms")
 	if rapid.IntRange(0, 5).Draw(rt, "hasCrowd") == 0 {
 		c.Crowd = rapid.SampledFrom([]int{12, 40, 100, 114, 118, 125, 160}).Draw(rt, "crowd")
 	}
